@@ -9,6 +9,7 @@
 pub mod sym;
 pub mod spec;
 pub mod s5;
+pub mod s6;
 pub mod h;
 #[cfg(not(kani))]
 pub mod registry;
